@@ -280,6 +280,10 @@ func (s *Service) UpdateSyncCommitteeDataRecord(
 	s.slotDataRecordsMu.Lock()
 	s.slotDataRecords[slot] = synccommitteemessenger.SlotData{Root: root, ValidatorToCommitteeIndex: validatorToCommitteeIndex}
 	s.slotDataRecordsMu.Unlock()
+
+	// Records are written whether or not inclusion is verified, so housekeep them here
+	// rather than relying on the verification to do so.
+	s.RemoveHistoricDataUsedForSlotVerification(slot)
 }
 
 // GetDataUsedForSlot returns slot data recorded for the sync committee message for a given slot.
